@@ -128,7 +128,10 @@ theorem serNode_lexOK (henv : envOK env = true) (inScope : List (Nat × Nat)) (n
       intro k hk
       simp only [List.mem_singleton] at hk
       subst hk
-      simpa [Token.lexOK, sp0, Tree.value, valueOK] using hval
+      have hval' : ((str.all isXmlChar && !hasInfix ['-', '-'] str) && str.getLast? != some '-') = true := by
+        simp only [Tree.value, valueOK, Bool.and_eq_true] at hval
+        simpa only [Bool.and_eq_true] using hval.1
+      simpa [Token.lexOK, sp0] using hval'
     | pi target data =>
       have hl := allNodes_leaf env hn rfl
       subst hl
@@ -149,7 +152,7 @@ theorem serNode_lexOK (henv : envOK env = true) (inScope : List (Nat × Nat)) (n
           have h4 := hval.2
           simp only [Bool.and_eq_true] at h4
           simp only [Token.lexOK, sp0, Option.map_some, Bool.and_eq_true, hname, true_and]
-          refine ⟨⟨⟨⟨?_, h4.1.1.1⟩, h4.1.1.2⟩, h4.1.2⟩, h4.2⟩
+          refine ⟨⟨⟨⟨?_, h4.1.1.1.1⟩, h4.1.1.1.2⟩, h4.1.1.2⟩, h4.1.2⟩
           simpa using hxml
     | element name =>
       obtain ⟨p, ats, content, _, hp, ha, hk, rfl⟩ := serNode_element_ok env h
